@@ -249,7 +249,11 @@ func (g *caseGen) queryText(valid bool) string {
 			q+" bogus", q+" where a == 1 and b == 2 or c == 3", q+" where (a == 1", q+` where a == "x`, q+" limit 1 limit 2", q+" where a sameas 1 where b sameas 2",
 			q+" where a matches (", q+" where a > x", "QUERY "+db+":", q+" offset 99999999999")
 	}
-	if !g.noWhere && g.rng.Intn(3) == 0 {
+	if !g.noWhere && g.rng.Intn(4) == 0 {
+		// a where clause printed from the harness's own condition tree (ownquery.go): the monitor knows what it means
+		q += " where " + ownTree(g.rng, 0).print(true)
+		g.r.Count("query:where-own-tree")
+	} else if !g.noWhere && g.rng.Intn(3) == 0 {
 		q += " where " + g.pick("s1 sameas x", "n1 > 3", "n1 < 100", "b1 is true", "s1 exists", "not s1 exists", "s2 contains a", "n2 == 5",
 			"(s1 sameas x or n1 > 3)", "s1 sameas x and b1 is true", "o1.s1 sameas x", "s1 startswith a", `s1 sameas "with space"`, "a1 exists", "n1 f> 2.5")
 		g.r.Count("query:where")
